@@ -1,2 +1,18 @@
 import PeptVerif.Props.C14
-#print axioms C14.addKey_nil
+#print axioms C14.sorted_by_mass
+#print axioms C14.scale_sum
+#print axioms C14.scale_max
+#print axioms C14.total_abundance
+#print axioms C14.weighted_mean_raw
+#print axioms C14.weighted_mean_eq_average
+#print axioms C14.lightest_peak_raw
+#print axioms C14.lightest_peak
+#print axioms C14.conv_comm
+#print axioms C14.conv_assoc
+#print axioms C14.conv_pushforward
+#print axioms C14.merge_adds
+#print axioms C14.abundances_sum_to_one
+#print axioms C14.lightest_is_monoisotopic_CHNOSP
+#print axioms C14.table_wellformed
+#print axioms C14.normalised_elements
+#print axioms C14.mean_is_average_mass
